@@ -24,6 +24,7 @@ AllocEcho(v) == CASE v = "10000" -> "6000" [] v = "11000" -> "7000" [] v = "1200
 Matches(s, obs, eff) ==
     CASE s = "alloc" -> obs = AllocEcho(eff)
       [] s = "creds" -> (obs = "true") <=> (eff = "true")
+      [] s = "ip"    -> IF eff = "localhost" THEN obs \in {"127.0.0.1", "::1"} ELSE obs = eff      \* a host name: the loopback it resolves to
       [] OTHER -> obs = eff
 
 TInit == l = 1 /\ nfail = 0 /\ env = <<>> /\ file = <<>> /\ cli = <<>> /\ store = <<>> /\ step = 0
